@@ -433,7 +433,7 @@ inline bool order_S(Rng& r, uint64_t idx)
   uint32_t const nw = static_cast<uint32_t>(r.range(2, 5));
   for (uint32_t i = 0; i < nw; ++i) run.spawn();
   World* wp = &w;
-  uint64_t stalls_below = 0, stalls_above = 0;
+  uint64_t stalls_below = 0, stalls_above = 0, shrink_chains = 0;
   auto do_log = [&](SW& s, bool stall)
   {
     uint16_t li = static_cast<uint16_t>(r.below(w.loggers.size()));
@@ -495,6 +495,30 @@ inline bool order_S(Rng& r, uint64_t idx)
     auto idle = run.idle_workers();
     if (idle.empty()) { run.poll(); continue; }
     SW& s = *idle[r.below(idle.size())];
+    if (!kBounded && x >= 96)
+    {
+      // a thread shrinks its queue (once or twice) and at once logs a statement that does not fit the shrunk buffer: its
+      // queue is now a chain of buffers with EMPTY ones in the middle and an old statement at the far end; another thread
+      // then logs (later timestamp), time passes, the backend polls
+      SW* sp = &s;
+      uint16_t li = static_cast<uint16_t>(r.below(w.loggers.size()));
+      uint32_t const big = static_cast<uint32_t>(r.range(1200, 3000));
+      bool const twice = r.chance(1, 2);
+      run.run_on(s, [wp, sp, li, big, twice]
+                 {
+                   Fe::shrink_thread_local_queue(512);
+                   if (twice) Fe::shrink_thread_local_queue(256);
+                   issue_std(sp->issues, wp->loggers[li].lg, li, quill::LogLevel::Info, sp->tid, sp->seq++, big);
+                 },
+                 "log");
+      ++shrink_chains;
+      auto others = run.idle_workers();
+      others.erase(std::remove(others.begin(), others.end(), &s), others.end());
+      if (!others.empty()) do_log(*others[r.below(others.size())], false);
+      vclock_jump(grace_ns * 3);
+      run.poll();
+      continue;
+    }
     bool stall = r.chance(1, 6);
     if (stall) (r.chance(1, 2) ? stalls_below : stalls_above)++;
     do_log(s, stall);
@@ -515,6 +539,7 @@ inline bool order_S(Rng& r, uint64_t idx)
   stat_add("order_inversions_observed_and_justified_by_lateness", static_cast<long long>(inv));
   stat_add("order_late_statements", static_cast<long long>(late));
   stat_add("order_stalls_after_clock_read", static_cast<long long>(stalls_below + stalls_above));
+  stat_add("order_shrink_then_oversize_statement_chains", static_cast<long long>(shrink_chains));
   stat_add("mode_s_polls", static_cast<long long>(run.polls));
   stat_sig("order_sigs", "S/" + std::to_string(run.sig_hash));
   w.teardown_loggers();
